@@ -258,24 +258,27 @@ def run_nocancel(case, res):
 
 def run_outcancel(case, res):
     op = case["op"]
-    for n in (2, 3, 6):
-        for k_done in range(0, n):
+    for n, k_done, running in [(n, k, rn) for n in (2, 3, 6) for k in range(0, n) for rn in ("none", "all", "odd")]:
+        if True:
             begin("rt")
             ctx = Ctx()
             try:
                 ins = [SpyFuture("in%d" % i) for i in range(n)]
+                for i, f in enumerate(ins):
+                    if running == "all" or (running == "odd" and i % 2 == 1):
+                        f.set_running_or_notify_cancel()  # work already started: still a pending input
                 out = mk(op, ins)
                 for i in range(k_done):
                     ins[i].set_result(0 if op == "or" else 1)  # undecided values
                 r = out.cancel()
                 res.execs += 1
-                label = "f_%s n=%d, %d inputs done, then output.cancel() -> %r" % (op, n, k_done, r)
+                label = "f_%s n=%d, %d inputs done, running inputs: %s, then output.cancel() -> %r" % (op, n, k_done, running, r)
                 if r is not True and k_done < n:
                     res.violation("output-cancel-refused/%s" % op, label)
                 for i in range(k_done, n):
                     if not ins[i].cancel_calls:
                         res.violation("output-cancel-not-fanned-out/%s" % op, "%s: pending input %d received no cancel()" % (label, i))
-                res.key("outcancel", op, n, k_done)
+                res.key("outcancel", op, n, k_done, running)
             finally:
                 end(ctx)
 
